@@ -139,8 +139,8 @@ def run_case(p, n, conn, g, table=None, retain=None, stratum="random", qc_obj=No
     if not ok:
         p.violate(key + "raises", "compress_preparation_circuit raised %s (%s) on [%s]" % (exc_name(out), str(out)[:100], fmt_gates(g)[:300]), case)
         return
-    if gates_of(qc) != before or qc.num_qubits != n or qc.name != name0 or qc.metadata != md0 or out is qc:
-        p.violate(key + "input-modified", "the input circuit object was modified (or returned) by compress_preparation_circuit", case)
+    if gates_of(qc) != before or qc.num_qubits != n or qc.name != name0 or qc.metadata != md0:
+        p.violate(key + "input-modified", "the input circuit object was modified by compress_preparation_circuit", case)
     og = gates_of(out)
     if retain is not None:
         retain.add(out, {"case": dict(case, retention=True), "requested": "input [%s]" % fmt_gates(g)[:120]})
